@@ -26,7 +26,7 @@ def tag_of(data):
 
 VARIANTS = ['upgrade_ok', 'upgrade_fail_frame', 'upgrade_fail_close', 'polling_only', 'ws_only',
             'two_sessions', 'close_during', 'upgrade_no_pending_poll', 'backlog_polling', 'backlog_ws',
-            'backlog_upgrade', 'overlapping_opens', 'upgrade_fail_accept', 'backlog_ping', 'ws_send_fault', 'upgraded_send_fault', 'backlog_closing']
+            'backlog_upgrade', 'overlapping_opens', 'upgrade_fail_accept', 'backlog_ping', 'ws_send_fault', 'upgraded_send_fault', 'backlog_closing', 'two_readers']
 
 
 class _SlowConnect:
@@ -283,6 +283,17 @@ class Delivery(core.Scenario):
             client = []
         elif variant == 'polling_only':
             client = [poll(A), poll(A, 'poll2'), poll(A, 'poll3')]
+        elif variant == 'two_readers':
+            # two long-polls of one session are waiting when a burst of k messages is queued by one application task
+            self.polls[A] += [peer.poll(w, A, run=True), peer.poll(w, A, run=True)]
+
+            def burst2(sc):
+                for i in range(k):
+                    sc.sends.append((tag_of(PAYLOADS[i]), A, None, sc.world.nstep))
+                c = sc.world.call_seq('send', [(A, PAYLOADS[i]) for i in range(k)])
+                sc.sends[:] = [(t, s_, c, st) for (t, s_, _, st) in sc.sends]
+            app = [core.Action('burst%d' % k, burst2)]
+            client = []
         elif variant == 'ws_only':
             client = []
         elif variant == 'close_during':
@@ -427,6 +438,8 @@ def param_list(ctx):
             ks = (2, 3) if v in ('upgrade_ok', 'upgrade_fail_frame', 'upgrade_fail_accept') else (2,)
             if v.endswith('send_fault'):
                 ks = (3,)
+            if v == 'two_readers':
+                ks = (3, 4)
             if v.startswith('backlog'):
                 ks = (17, 20, 40)
             if v == 'backlog_closing':
